@@ -37,8 +37,8 @@ BUDGET = {'quick': 900, 'thorough': 7200}
 CHUNK = {'quick': 4, 'thorough': 4}
 MANIFEST = {'engines': ['E1-enum', 'E2-explore'],
             'technique': 'stateless exhaustive exploration of every roll-out of the real run_on/evaluate_on; explored set and branch probabilities compared with an exact trajectory enumeration'}
-SLAB = ['int', 'rev', 'str', 'mix', 'tup', 'fd']
-ALAB = ['ab', 'rev', 'ab', 'mix', 'rev', 'fd']
+SLAB = ['int', 'rev', 'str', 'mix', 'tup', 'fd', 'falsy']
+ALAB = ['ab', 'rev', 'ab', 'mix', 'rev', 'fd', 'falsy']
 
 
 def bounds(tier):
@@ -54,16 +54,18 @@ def items(tier, seed):
     step = 7 if tier == 'quick' else 2
     for it in mdps[(seed % step)::step]:
         i += 1
-        yield ('mdp', it, (i + seed) % 6)
+        if i % 2 == 0:
+            it = build.with_ns_rewards(it)
+        yield ('mdp', it, (i + seed) % len(SLAB))
     for it in list(build.chain_mdps(3, [F(1, 2)], [F(-1), F(0)]))[(seed % 5)::(5 if tier == 'quick' else 1)]:
         i += 1
-        yield ('mdp', it[:4] + (((0, F(1, 2)), (1, F(1, 2))),) + it[5:], (i + seed) % 6)
+        yield ('mdp', it[:4] + (((0, F(1, 2)), (1, F(1, 2))),) + it[5:], (i + seed) % len(SLAB))
     RP = pomdpspec.REWARD_PATTERNS
     poms = list(pomdpspec.enum_pomdps(2, 2, 1, [RP['mixed']], [(), (1,)], [((0, F(1, 4)), (1, F(3, 4)))], [F(9, 10)], kernel_pairs='some'))
     pstep = 23 if tier == 'quick' else 5
     for it in poms[(seed % pstep)::pstep]:
         i += 1
-        yield ('pomdp', it, (i + seed) % 6)
+        yield ('pomdp', it, (i + seed) % len(SLAB))
     yield ('returns', None, 0)
 
 
